@@ -330,7 +330,10 @@ def selftest():
     ok, rej, _ = vlib.tlc_trace(path, "Trace_VtParser", "c02-self-b")
     if ok or rej["reject_at"] != idx + 1:
         return False
-    del lines[idx]
+    # a removed hook: drop the line of an ESC that opens a sequence - what follows is then no behaviour of the specification
+    lines[idx] = json.dumps(json.loads(lines[idx]) | {"e": [{"c": json.loads(lines[idx])["e"][0]["c"] - 1, "k": "print"}]}, separators=(",", ":"))
+    esc = next(i for i, l in enumerate(lines) if l.startswith('{"b":27,') and i > idx)
+    del lines[esc]
     open(path, "w").write("\n".join(lines))
     ok, rej, _ = vlib.tlc_trace(path, "Trace_VtParser", "c02-self-c")
     if ok:
